@@ -82,7 +82,7 @@ fn emit_value_case(rng: &mut Rng, family: &str, n: usize, re: Vec<i64>, im: Vec<
   let conj: Vec<C> = a.iter().map(|z| z.conj()).collect();
   let sv = sv_sums(&mag, n);
   // global scale factors far from 1 but well inside the binary64 range of sigma^4: K must not change
-  let extreme: Vec<Value> = [-15i32, -16, -17, -18, -30, 15, 30]
+  let extreme: Vec<Value> = [-15i32, -16, -17, -18, -30, -100, 15, 30, 100]
     .iter()
     .map(|e| {
       let f = 10f64.powi(*e);
@@ -353,7 +353,7 @@ fn setup_cases(rng: &mut Rng, ncases: usize) {
 fn extreme_cases() {
   let base: Vec<C> = vec![C::new(1.0, 0.0), C::new(0.5, 0.0), C::new(0.25, 0.0), C::new(2.0, 1.0)];
   let mut rows: Vec<Value> = vec![];
-  for e in [0i32, -60, -70, -74, -80, -100, 60, 70, 74, 80, 160] {
+  for e in [0i32, -60, -70, -74, -80, -100, -120, -160, 60, 70, 74, 80, 100, 120, 160] {
     let s = 10f64.powi(e);
     let a: Vec<C> = base.iter().map(|z| z * s).collect();
     rows.push(json!({"scale_exp10": e, "result": kjson(&a)}));
